@@ -239,6 +239,10 @@ def evaluate(case) -> Result:
     try:
         w.start()
         injected = run_fault_phase(w, case)
+        if case.get("long_gap"):
+            # the peers come back after a long silence (longer than the 1000 s the per-peer statistics look back)
+            w.advance(case["long_gap"])
+            res.classes.append("probe:after-long-silence")
         host = case.get("probe_host", "peer3.example")
         # a peer that still has a connection cannot be the probe peer
         # (also when the node has not noticed the loss yet: two simultaneous connections of one
@@ -324,6 +328,13 @@ def shard_main(shard, nshards, tier, scale):
         for nfail in (1, 2, 3):
             jobs.append({"app_kind": app_kind, "limit": limit, "outcomes": ["answer"], "faults": [["req", "full", "eof"]],
                          "sync_failed_dials": nfail, "gap": 3})
+    # the peer is served, loses its connection, stays away for longer than the statistics look back, and returns
+    for app_kind, limit in (("basic", 0), ("threading", 1)):
+        for f in ("eof", "reset"):
+            for sc in ("req", "dwr", "hs-in"):
+                for gap_ in (1001, 1300):
+                    jobs.append({"app_kind": app_kind, "limit": limit, "outcomes": ["answer"], "faults": [[sc, "full", f]],
+                                 "gap": 1, "probe_host": "peer1.example", "long_gap": gap_})
     if shard == 0:
         rec.extra["grid_jobs"] = len(jobs)
     for case in jobs[shard::nshards]:
@@ -344,6 +355,7 @@ def shard_main(shard, nshards, tier, scale):
                 "dwell": draw(st.integers(0, 3)), "gap": draw(st.integers(0, 4)),
                 "probe_host": draw(st.sampled_from(["peer3.example", "peer1.example"])),
                 "sync_failed_dials": draw(st.sampled_from([0, 0, 1, 2])),
+                "long_gap": draw(st.sampled_from([0, 0, 0, 0, 0, 0, 999, 1200])),
                 "seed": draw(st.integers(0, 7)), "yield_all": draw(st.booleans())}
 
     def body(case):
@@ -359,7 +371,7 @@ def run(tier, scale=1.0):
     rec = Recorder(PID)
     for d in hyp.pool_run(shard_main, (tier, scale)):
         rec.merge(d)
-    required = {"sync-failed-dials:2": 1} | {f"scenario:{s}": 1 for s in SCENARIOS} | {f"cut:{c}": 1 for c in CUTS} | \
+    required = {"sync-failed-dials:2": 1, "probe:after-long-silence": 1} | {f"scenario:{s}": 1 for s in SCENARIOS} | {f"cut:{c}": 1 for c in CUTS} | \
                {f"fault:{f}": 1 for f in FAULTS} | {f"outcome:{o}": 1 for o in OUTCOMES} | \
                {"limit:3": 1, "nfaults:3": 1, "app:basic": 1, "probe:retransmission-of-unanswered": 1}
     return finish(rec, tier=tier, level="fault_enumeration", rule=RULE, assumptions=ASSUME, t0=t0,
